@@ -5,7 +5,8 @@ OBLIGATIONS = ['Yalafi.C09_genRepl_nil', 'Yalafi.C09_setMacro_lookup', 'Yalafi.C
                'Yalafi.C09_newcommand_e2e', 'Yalafi.C09_newcommand_example_current',
                'Yalafi.C09_newcommand_args_e2e', 'Yalafi.C09_newcommand_args_kept_e2e', 'Yalafi.C09_newcommand_args_current',
                'Yalafi.C09_newcommand_args_simple_current', 'Yalafi.C09_newcommand_args_current_ref', 'Yalafi.C09_newcommand_args_current_e2e',
-               'Yalafi.C09_defs_route_e2e', 'Yalafi.C09_defs_vs_document', 'Yalafi.C09_defs_route_current', 'Yalafi.C09_defs_vs_document_current', 'Yalafi.C09_defs_vs_document_current_e2e', 'Yalafi.C09_defs_vs_document_current_eval', 'Yalafi.C09_defs_vs_document_variant_eval', 'Yalafi.C09_renewcommand_default_e2e', 'Yalafi.C09_renewcommand_default_current', 'Yalafi.C09_renewcommand_default_current_e2e', 'Yalafi.C09_renewcommand_default_current_eval']
+               'Yalafi.C09_defs_route_e2e', 'Yalafi.C09_defs_vs_document', 'Yalafi.C09_defs_route_current', 'Yalafi.C09_defs_vs_document_current', 'Yalafi.C09_defs_vs_document_current_e2e', 'Yalafi.C09_defs_vs_document_current_eval', 'Yalafi.C09_defs_vs_document_variant_eval', 'Yalafi.C09_renewcommand_default_e2e', 'Yalafi.C09_renewcommand_default_current', 'Yalafi.C09_renewcommand_default_current_e2e', 'Yalafi.C09_renewcommand_default_current_eval',
+               'Yalafi.C09_def_e2e', 'Yalafi.C09_def_current', 'Yalafi.C09_def_current_ref', 'Yalafi.C09_def_current_e2e', 'Yalafi.C09_def_current_eval', 'Yalafi.C09_nested_uses_e2e', 'Yalafi.C09_nested_uses_machine', 'Yalafi.C09_nested_uses_current', 'Yalafi.C09_nested_uses_current_ref', 'Yalafi.C09_nested_uses_current_e2e', 'Yalafi.C09_nested_uses_current_eval', 'Yalafi.C09_single_token_args_e2e', 'Yalafi.C09_single_token_args_machine', 'Yalafi.C09_single_token_args_current', 'Yalafi.C09_single_token_args_current_ref', 'Yalafi.C09_single_token_args_current_e2e', 'Yalafi.C09_single_token_args_current_eval']
 
 BODY_ONLY = {'c_group', 'c_unknown', 'c_vanish', 'c_ref', 'c_usermacro', 'c_cite', 'c_inline_math', 'c_itemize', 'c_footnote',
              'c_newcommand', 'c_def', 'c_env_unknown'}
